@@ -45,6 +45,12 @@ def gen_intervals(ctx):
         lo = m * g - eps if R.random() < 0.7 else m * g + eps
         w = g * R.choice([0.25, 0.5, 0.75, 1.0, 1.5, 0.0])
         out.append(("nearline", lo, lo + w))
+    for _ in range(ctx.scale(800, 8000)):                       # proper ranges that are very narrow next to their endpoints
+        k = R.randint(-40, 40)
+        lo = R.choice([1, -1]) * R.randint(2 ** 10, 2 ** 12) * 2.0 ** k          # |lo| ~ 2^(k+10..k+12), multiple of 2^k
+        j = R.randint(18, 34)                                                       # width 2^(k-j): relative width 2^-28 .. 2^-46
+        w = R.choice([1, 1, 2, 3]) * 2.0 ** (k - j)
+        out.append(("narrow", lo, lo + w))
     for _ in range(ctx.scale(300, 3000)):                       # single points
         v = R.choice([0.0, 1.0, -1.0, 0.5, R.randint(-10**6, 10**6) / 8.0, (R.random() - 0.5) * 2.0 ** R.randint(-30, 40)])
         out.append(("point", v, v))
